@@ -50,6 +50,16 @@ CFG = dict(
                  "headers declaring more than 2 Mi pixels run a reduced entry set (info, read_image, scanline); the scanline loop pulls at most 70000 rows",
                  "the in-process differential needs ASAN_OPTIONS detect_stack_use_after_return=0 (set for these runs)",
                  "a decoder that accepts a truncated file and returns an image is counted (ok-on-truncated.*), not alarmed",
+                 "the digest of read_image_info and of the scanline reader covers every member of the backend's _info struct (PNG also with all "
+                 "read_* switches on: entry info-all), the settings' top_left/dim, _scanline_length and BMP's palette; BMP's colour masks are left "
+                 "uninitialised by GIL until 15/16-bit data is read and are not dumped",
+                 "short-field-read-accepted: for BMP and TARGA (GIL's own decoders, headers read as 1/2/4-byte fields) a device read of <= 8 bytes "
+                 "that comes back short must end in an exception -- judged for read_image_info and for every entry point when the input ends inside "
+                 "the fixed header (54/26/18 bytes); independent of what the leftover bytes are (the pre-fill differential is blind when the buffer "
+                 "still holds the previous field)",
+                 "ignorable-data-changes-result: a valid file with an inserted JPEG COM/APPn segment (2..65535 bytes, also before SOS and several in a "
+                 "row), PNG tEXt/zTXt/private chunk (up to 70000 bytes) or private TIFF tag (up to 70000 bytes) must decode to the pixels of the file "
+                 "without it through every device",
                  "leak detection off (third-party error paths)",
                  "std::istream seek semantics of std::stringbuf (positions beyond the end fail)"],
     tus=[tu("c11_f%d" % k, SRC, "asan", extra=["-DC11_FMT=%d" % k, "-fno-sanitize=alignment"] + WRAP, libs=libs, deps=DEPS) for k, _, libs, _, _ in FORMATS],
@@ -58,5 +68,6 @@ CFG = dict(
           for k, _, _, fq, ft in FORMATS],
     require_obs=["outcome.ok", "outcome.ios_failure", "outcome.alloc-cap", "entry.info", "entry.read_image", "entry.read_view",
                  "entry.convert_image", "entry.convert_view", "entry.scanline", "entry.any_image", "entry.read_image-subrect",
+                 "entry.equiv", "entry.info-all", "short-field-read.judged",
                  "device.FILEptr", "device.filename", "device.istream"],
 )
